@@ -99,12 +99,18 @@ def allow_args(func: F) -> F:
         [p for p in parameters.values() if p.kind == inspect.Parameter.POSITIONAL_ONLY],
     )
 
-    # Create new signature without keyword-only arguments
+    # Create new signature without keyword-only arguments. The wrapper requires that all
+    # arguments are provided, hence the new signature has no default values. (Keeping
+    # them could also result in an invalid signature: a former keyword-only parameter
+    # without default may follow a parameter with default.)
     new_parameters = [
         (
-            p.replace(kind=inspect.Parameter.POSITIONAL_OR_KEYWORD)
+            p.replace(
+                kind=inspect.Parameter.POSITIONAL_OR_KEYWORD,
+                default=inspect.Parameter.empty,
+            )
             if p.kind == inspect.Parameter.KEYWORD_ONLY
-            else p
+            else p.replace(default=inspect.Parameter.empty)
         )
         for p in parameters.values()
     ]
